@@ -152,7 +152,14 @@ def run_shard(spec, ctx):
         _extra_valid(ctx, mods, r, spec["n"] // 10)
     else:
         names = list(faults.FAULTS)
+        tn = tasks.TASK_NAMES
         for i in range(spec["n"]):
+            # a valid evaluate() of some task between faults: rejection must not
+            # depend on what was scored before
+            t = tasks.TASKS[tn[r.randrange(len(tn))]]
+            a, kw = t.evaluate(t.gen_eval(r), r)
+            workloads.run_calls(ctx, mods, [(t.name + ".evaluate", a, kw)],
+                                on_exc_valid(ctx), None, "interleaved")
             fault = names[i % len(names)]
             expected, make = faults.FAULTS[fault]
             for fn, args, kw in make(r, tasks):
